@@ -1,6 +1,1040 @@
-use crate::worker::Ctx;
+//! The `sched` engine: every completion order (and every order of newly ready
+//! dependents) of one invocation of the real `run::build`, for every scenario
+//! of a family, under the gated executor.  Monitors for C01 C04 C05 C06 C18
+//! C19 (and the regeneration half of C17) are evaluated on the event trace.
+
+use crate::exec::{self, BuildResult, Event, ExecConfig, Point, Term};
+use crate::scen::{self, Edit, Scenario};
+use crate::sim::{take_sim, Outcome, Sim};
+use crate::worker::{Ctx, Tier};
+use n2::verif::BuildOpts;
+use serde_json::{json, Value};
+use std::collections::{BTreeMap, BTreeSet};
+use vcore::enumerate::Fnv;
+use vcore::project::{EdgeKind, Project};
 use vcore::report::ShardResult;
 
-pub fn run(_ctx: &mut Ctx) -> ShardResult {
-    unimplemented!("engine sched")
+const E4: [Option<EdgeKind>; 4] = [None, Some(EdgeKind::Explicit), Some(EdgeKind::OrderOnly), Some(EdgeKind::Validation)];
+const E3: [Option<EdgeKind>; 3] = [None, Some(EdgeKind::Explicit), Some(EdgeKind::OrderOnly)];
+
+pub fn family(name: &str) -> Vec<Scenario> {
+    match name {
+        "G3" => scen::family_g(3, &scen::EDGE_OPTIONS),
+        "G4" => scen::family_g(4, &E3),
+        "D3" => scen::family_d(3, &E4, false),
+        "D3p" => scen::family_d(3, &E3, true),
+        "D4" => scen::family_d(4, &[None, Some(EdgeKind::Explicit)], true),
+        "F3q" => scen::family_f(3, &E4, &[None, Some(1), Some(2)], &[Outcome::Fail, Outcome::FailAfterWrite, Outcome::Interrupt], true),
+        "F3" => scen::family_f(3, &scen::EDGE_OPTIONS, &[None, Some(1), Some(2), Some(3)], &[Outcome::Fail, Outcome::FailAfterWrite, Outcome::Interrupt], true),
+        "F4" => scen::family_f(4, &[None, Some(EdgeKind::Explicit)], &[None, Some(1), Some(2), Some(3)], &[Outcome::Fail], false),
+        "P3" => scen::family_p(3, &[1, 2, 3]),
+        "P4" => scen::family_p(4, &[2, 3, 4]),
+        "V2" => scen::family_v(2),
+        "V3" => scen::family_v(3),
+        "T3" => scen::family_t(3, &E4),
+        "R" => scen::family_r(),
+        "S" => scen::family_s(),
+        other => panic!("unknown scenario family {}", other),
+    }
 }
+
+/// Which families a property's check runs.
+pub fn jobs(prop: &str, tier: Tier) -> Vec<(String, u64)> {
+    let q = |fams: &[&str]| -> Vec<(String, u64)> { fams.iter().map(|f| (format!("sched:{}", f), 16)).collect() };
+    match (prop, tier) {
+        ("C01", Tier::Quick) => q(&["G3", "D3", "F3q", "S", "R"]),
+        ("C01", Tier::Thorough) => q(&["G3", "G4", "D3", "D3p", "D4", "F3", "F4", "P3", "S", "R"]),
+        ("C04", Tier::Quick) => q(&["P3", "D3p", "S", "R"]),
+        ("C04", Tier::Thorough) => q(&["P3", "P4", "D3p", "D4", "F4", "S", "R"]),
+        ("C05", Tier::Quick) => q(&["F3q", "S", "P3"]),
+        ("C05", Tier::Thorough) => q(&["F3", "F4", "S", "P3", "P4", "R"]),
+        ("C06", Tier::Quick) => q(&["V2", "V3", "G3", "S", "R", "P3"]),
+        ("C06", Tier::Thorough) => q(&["V2", "V3", "G3", "G4", "D3", "D4", "F3", "S", "R", "P3", "P4", "T3"]),
+        ("C17", _) => q(&["R"]),
+        ("C18", Tier::Quick) => q(&["T3", "R"]),
+        ("C18", Tier::Thorough) => q(&["T3", "R", "D3", "S"]),
+        ("C19", Tier::Quick) => q(&["G3", "D3", "F3q", "P3", "S", "R"]),
+        ("C19", Tier::Thorough) => q(&["G3", "G4", "D3", "D3p", "F3", "P3", "P4", "S", "R", "T3"]),
+        _ => vec![],
+    }
+}
+
+// ---------------------------------------------------------------------------
+// Running one scenario.
+
+pub struct Prepared {
+    pub snapshot: exec::Snapshot,
+    pub sim: Sim,
+}
+
+fn opts(s: &Scenario) -> BuildOpts {
+    BuildOpts {
+        build_filename: if s.manifest_name == "build.ninja" {
+            None
+        } else {
+            Some(s.manifest_name.clone())
+        },
+        targets: s.targets.clone(),
+        parallelism: s.j,
+        failures_left: s.k,
+        explain: false,
+        adopt: s.adopt,
+    }
+}
+
+/// Sets up the initial tree of a scenario.  Err = the prebuild did not succeed
+/// (a machinery problem or a finding of its own).
+pub fn prepare(s: &Scenario) -> Result<Prepared, String> {
+    exec::clear_dir();
+    let mut sim = Sim::new(s.project.clone());
+    sim.create_sources();
+    sim.write_manifest(&s.manifest_name);
+    sim.reports = s.reports.clone();
+    sim.restat_like = s.restat_like.clone();
+    if s.prebuilt {
+        // Generators regenerate identically during the prebuild.
+        for (k, g) in &s.generators {
+            sim.generators.insert(
+                k.clone(),
+                crate::sim::Generator {
+                    manifest_name: g.manifest_name.clone(),
+                    next: s.project.clone(),
+                },
+            );
+        }
+        let mut o = opts(s);
+        o.targets = Vec::new();
+        o.failures_left = None;
+        o.parallelism = 1;
+        o.adopt = false;
+        let out = exec::run_build(
+            ExecConfig {
+                model: Box::new(sim),
+                prefix: Vec::new(),
+                explore_order: false,
+                db_fault: None,
+                max_waits: 1000,
+                record_counts: false,
+            },
+            o,
+        );
+        match &out.result {
+            BuildResult::Success(_) => {}
+            other => return Err(format!("prebuild did not succeed: {:?}", other)),
+        }
+        sim = take_sim(out.model);
+        sim.ran.clear();
+    }
+    for e in &s.edits {
+        match e {
+            Edit::Touch(f) => sim.touch(f),
+            Edit::TouchMtime(f) => sim.touch_mtime(f),
+            Edit::Remove(f) => sim.remove(f),
+        }
+    }
+    sim.generators = s.generators.clone();
+    sim.outcomes = s.outcomes.clone();
+    sim.raw_depfile = s.raw_depfile.clone();
+    Ok(Prepared {
+        snapshot: exec::snapshot(),
+        sim,
+    })
+}
+
+pub struct Execution {
+    pub result: BuildResult,
+    pub trace: Vec<Event>,
+    pub points: Vec<Point>,
+    pub sim: Sim,
+    pub diverged: Option<String>,
+    pub thread_panics: Vec<crate::worker::PanicRecord>,
+    /// The follow-up all-success invocation, if the scenario asks for one.
+    pub followup: Option<(BuildResult, Vec<usize>)>,
+}
+
+pub fn execute(s: &Scenario, prep: &Prepared, prefix: &[usize], want_followup: bool) -> Execution {
+    exec::restore(&prep.snapshot);
+    let out = exec::run_build(
+        ExecConfig {
+            model: Box::new(prep.sim.clone()),
+            prefix: prefix.to_vec(),
+            explore_order: s.explore_order,
+            db_fault: None,
+            max_waits: 200,
+            record_counts: true,
+        },
+        opts(s),
+    );
+    let sim = take_sim(out.model);
+    let mut ex = Execution {
+        result: out.result,
+        trace: out.trace,
+        points: out.points,
+        sim,
+        diverged: out.diverged,
+        thread_panics: out.thread_panics,
+        followup: None,
+    };
+    if want_followup && s.followup {
+        let mut sim2 = ex.sim.clone();
+        sim2.outcomes.clear();
+        sim2.ran.clear();
+        let mut o = opts(s);
+        o.failures_left = None;
+        o.parallelism = 1;
+        let out2 = exec::run_build(
+            ExecConfig {
+                model: Box::new(sim2),
+                prefix: Vec::new(),
+                explore_order: false,
+                db_fault: None,
+                max_waits: 200,
+                record_counts: false,
+            },
+            o,
+        );
+        let sim2 = take_sim(out2.model);
+        let ran: Vec<usize> = sim2.ran.iter().filter(|r| r.generation + 1 == sim2.projects.len()).map(|r| r.step).collect();
+        ex.followup = Some((out2.result, ran));
+    }
+    ex
+}
+
+// ---------------------------------------------------------------------------
+// Analysis of a trace.
+
+#[derive(Debug, Clone)]
+pub struct StepRun {
+    pub step: usize,
+    pub start: usize,
+    pub finish: Option<(usize, Term)>,
+}
+
+pub struct Phase<'a> {
+    pub index: usize,
+    pub project: &'a Project,
+    pub events: &'a [Event],
+    /// Offset of events[0] in the whole trace.
+    pub base: usize,
+    pub runs: Vec<StepRun>,
+    pub wanted: BTreeSet<usize>,
+    /// Starts of commands that are not steps of this phase's project.
+    pub foreign_starts: Vec<String>,
+}
+
+impl<'a> Phase<'a> {
+    pub fn running_at(&self, t: usize) -> Vec<usize> {
+        self.runs
+            .iter()
+            .filter(|r| r.start < t && r.finish.map(|f| f.0 >= t).unwrap_or(true))
+            .map(|r| r.step)
+            .collect()
+    }
+    pub fn run_of(&self, step: usize) -> Option<&StepRun> {
+        self.runs.iter().find(|r| r.step == step)
+    }
+}
+
+pub fn phases<'a>(s: &Scenario, ex: &'a Execution) -> Vec<Phase<'a>> {
+    let mut bounds: Vec<usize> = ex
+        .trace
+        .iter()
+        .enumerate()
+        .filter(|(_, e)| matches!(e, Event::RunBegin { .. }))
+        .map(|(i, _)| i)
+        .collect();
+    bounds.push(ex.trace.len());
+    let mut out = Vec::new();
+    let projects = &ex.sim.projects;
+    let has_manifest_target = projects[0].producer(&s.manifest_name).is_some();
+    let mut reloaded = false;
+    for w in 0..bounds.len().saturating_sub(1) {
+        let events = &ex.trace[bounds[w]..bounds[w + 1]];
+        let is_regen_phase = has_manifest_target && w == 0;
+        let project: &Project = if w == 0 || !reloaded {
+            &projects[0]
+        } else {
+            projects.last().unwrap()
+        };
+        let mut runs: Vec<StepRun> = Vec::new();
+        let mut foreign = Vec::new();
+        for (i, e) in events.iter().enumerate() {
+            match e {
+                Event::Start { cmdline, .. } => match project.step_by_cmdline(cmdline) {
+                    Some(step) => runs.push(StepRun {
+                        step,
+                        start: i,
+                        finish: None,
+                    }),
+                    None => foreign.push(cmdline.clone()),
+                },
+                Event::Finished { build, term } => {
+                    // match by build id through the Start event
+                    let cmd = events.iter().find_map(|x| match x {
+                        Event::Start { build: b, cmdline } if b == build => Some(cmdline.clone()),
+                        _ => None,
+                    });
+                    if let Some(step) = cmd.and_then(|c| project.step_by_cmdline(&c)) {
+                        if let Some(r) = runs.iter_mut().rev().find(|r| r.step == step && r.finish.is_none()) {
+                            r.finish = Some((i, *term));
+                        }
+                    }
+                }
+                _ => {}
+            }
+        }
+        let wanted = if is_regen_phase {
+            project.closure(&[s.manifest_name.clone()])
+        } else {
+            let mut targets: Vec<String> = Vec::new();
+            for t in &s.targets {
+                let c = vcore::refbuild::canon(t);
+                if has_manifest_target && c == s.manifest_name {
+                    continue;
+                }
+                targets.push(c);
+            }
+            let mut w2 = if s.targets.is_empty() || !targets.is_empty() {
+                project.wanted(&targets, if has_manifest_target { Some(&s.manifest_name) } else { None })
+            } else {
+                BTreeSet::new()
+            };
+            if has_manifest_target && !reloaded {
+                // The Work of the regeneration phase is reused.
+                w2.extend(project.closure(&[s.manifest_name.clone()]));
+            }
+            w2
+        };
+        if is_regen_phase {
+            reloaded = runs.iter().any(|r| matches!(r.finish, Some((_, Term::Success))));
+        }
+        out.push(Phase {
+            index: w,
+            project,
+            events,
+            base: bounds[w],
+            runs,
+            wanted,
+            foreign_starts: foreign,
+        });
+    }
+    out
+}
+
+type Findings = Vec<(String, String)>;
+
+fn name(p: &Project, step: usize) -> String {
+    p.steps[step].outs[0].clone()
+}
+
+pub fn monitor_c01(s: &Scenario, ex: &Execution) -> Findings {
+    let mut f = Findings::new();
+    for ph in phases(s, ex) {
+        let p = ph.project;
+        let mut seen = BTreeSet::new();
+        for r in &ph.runs {
+            if !seen.insert(r.step) {
+                f.push(("started-twice".into(), format!("phase {}: command of {} started a second time", ph.index, name(p, r.step))));
+            }
+        }
+        for r in &ph.runs {
+            let mut t_ready = 0usize;
+            for q in p.ord_pred(r.step) {
+                if p.steps[q].phony {
+                    continue;
+                }
+                match ph.run_of(q) {
+                    None => {} // judged up to date (C02/C03 decide whether rightly)
+                    Some(qr) => {
+                        if qr.start > r.start {
+                            f.push(("started-before-predecessor".into(), format!("phase {}: {} started before its predecessor {} (which ran later)", ph.index, name(p, r.step), name(p, q))));
+                            continue;
+                        }
+                        match qr.finish {
+                            Some((t, Term::Success)) if t < r.start => t_ready = t_ready.max(t),
+                            Some((t, term)) if t < r.start => f.push(("started-after-predecessor-failed".into(), format!("phase {}: {} started although predecessor {} ended with {:?}", ph.index, name(p, r.step), name(p, q), term))),
+                            _ => f.push(("started-while-predecessor-running".into(), format!("phase {}: {} started while predecessor {} was still running", ph.index, name(p, r.step), name(p, q)))),
+                        }
+                    }
+                }
+            }
+            // Validation / discovered edges impose no ordering: between the
+            // moment the last ordering predecessor finished and the start,
+            // n2 must not have blocked with room to run this step.
+            for (i, e) in ph.events.iter().enumerate() {
+                if i <= t_ready || i >= r.start {
+                    continue;
+                }
+                if let Event::Wait { running, .. } = e {
+                    if running.len() >= s.j {
+                        continue;
+                    }
+                    let pool = p.steps[r.step].pool.clone().unwrap_or_default();
+                    let depth = p.pool_depth(&pool).unwrap_or(0);
+                    if depth > 0 {
+                        let in_pool = ph.running_at(i).iter().filter(|&&x| p.steps[x].pool.clone().unwrap_or_default() == pool).count();
+                        if in_pool >= depth {
+                            continue;
+                        }
+                    }
+                    let non_ordering: Vec<String> = ph
+                        .running_at(i)
+                        .iter()
+                        .filter(|&&x| !p.ord_pred(r.step).contains(&x))
+                        .map(|&x| name(p, x))
+                        .collect();
+                    f.push(("blocked-although-ready".into(), format!("phase {}: n2 blocked waiting for {:?} while {} was ready to start (all ordering predecessors done, -j and pool had room)", ph.index, non_ordering, name(p, r.step))));
+                    break;
+                }
+            }
+        }
+    }
+    f
+}
+
+pub fn monitor_c04(s: &Scenario, ex: &Execution) -> Findings {
+    let mut f = Findings::new();
+    for ph in phases(s, ex) {
+        let p = ph.project;
+        for r in &ph.runs {
+            let mut running = ph.running_at(r.start);
+            running.push(r.step);
+            if running.len() > s.j {
+                f.push(("j-exceeded".into(), format!("phase {}: {} commands running at once with -j {}: {:?}", ph.index, running.len(), s.j, running.iter().map(|&x| name(p, x)).collect::<Vec<_>>())));
+            }
+            let pool = p.steps[r.step].pool.clone().unwrap_or_default();
+            match p.pool_depth(&pool) {
+                Some(d) if d > 0 => {
+                    let n = running.iter().filter(|&&x| p.steps[x].pool.clone().unwrap_or_default() == pool).count();
+                    if n > d {
+                        f.push(("pool-depth-exceeded".into(), format!("phase {}: {} commands of pool {:?} (depth {}) running at once", ph.index, n, pool, d)));
+                    }
+                }
+                Some(_) => {}
+                None => f.push(("undeclared-pool-started".into(), format!("phase {}: {} names undeclared pool {:?} but its command was started", ph.index, name(p, r.step), pool))),
+            }
+        }
+        for (i, e) in ph.events.iter().enumerate() {
+            if let Event::Wait { believed, running } = e {
+                if *believed != running.len() {
+                    f.push(("runner-count-drift".into(), format!("phase {} event {}: n2 believes {} commands are running, {} are", ph.index, i, believed, running.len())));
+                }
+            }
+        }
+    }
+    // A dirty step with an undeclared pool must make the invocation fail with
+    // an error naming the pool (unless something else stopped it first).
+    let last = ex.sim.projects.last().unwrap();
+    if let BuildResult::Error(msg) = &ex.result {
+        if msg.contains("unknown pool") {
+            let named = last.steps.iter().chain(ex.sim.projects[0].steps.iter()).any(|st| {
+                st.pool.as_ref().map(|pl| last.pool_depth(pl).is_none() && msg.contains(&format!("{:?}", pl))).unwrap_or(false)
+            });
+            if !named {
+                f.push(("unknown-pool-error-for-declared-pool".into(), format!("error {:?} but every pool used is declared", msg)));
+            }
+        }
+    }
+    if let BuildResult::Success(_) = &ex.result {
+        let phs = phases(s, ex);
+        if let Some(ph) = phs.last() {
+            for &st in &ph.wanted {
+                let stp = &ph.project.steps[st];
+                if stp.phony {
+                    continue;
+                }
+                if let Some(pl) = &stp.pool {
+                    if ph.project.pool_depth(pl).is_none() && ph.run_of(st).is_none() {
+                        // accepted only if the step was clean
+                        if ex.sim.model.is_dirty(ph.project, st).is_dirty() {
+                            f.push(("undeclared-pool-ignored".into(), format!("{} names undeclared pool {:?}, is dirty, and the build reported success", stp.outs[0], pl)));
+                        }
+                    }
+                }
+            }
+        }
+    }
+    f
+}
+
+fn failed_before(ph: &Phase, t: usize) -> Vec<(usize, Term)> {
+    ph.runs
+        .iter()
+        .filter_map(|r| match r.finish {
+            Some((ft, term)) if ft < t && term != Term::Success => Some((r.step, term)),
+            _ => None,
+        })
+        .collect()
+}
+
+pub fn monitor_c05(s: &Scenario, ex: &Execution) -> Findings {
+    let mut f = Findings::new();
+    let phs = phases(s, ex);
+    let mut failures_total = 0usize;
+    let mut interrupted = false;
+    let mut stop_reached_at: Option<(usize, usize)> = None; // (phase, event)
+    for ph in &phs {
+        let p = ph.project;
+        for r in &ph.runs {
+            for (q, term) in failed_before(ph, r.start) {
+                if p.ord_pred(r.step).contains(&q) {
+                    f.push(("started-downstream-of-failure".into(), format!("phase {}: {} started although {} ({:?}) is among its predecessors", ph.index, name(p, r.step), name(p, q), term)));
+                }
+            }
+            if let Some((sp, st)) = stop_reached_at {
+                if ph.index > sp || r.start > st {
+                    f.push(("started-after-budget-exhausted".into(), format!("phase {}: {} started after the failure budget (-k {:?}) was used up or a command was interrupted", ph.index, name(p, r.step), s.k)));
+                }
+            }
+        }
+        for (i, e) in ph.events.iter().enumerate() {
+            if let Event::Finished { term, .. } = e {
+                match term {
+                    Term::Failure => {
+                        failures_total += 1;
+                        if let Some(k) = s.k {
+                            if failures_total >= k && stop_reached_at.is_none() {
+                                stop_reached_at = Some((ph.index, i));
+                            }
+                        }
+                    }
+                    Term::Interrupted => {
+                        interrupted = true;
+                        if stop_reached_at.is_none() {
+                            stop_reached_at = Some((ph.index, i));
+                        }
+                    }
+                    Term::Success => {}
+                }
+            }
+        }
+        // Re-scan starts after the stop point within this phase (the loop
+        // above saw starts before the stop point was known).
+        if let Some((sp, st)) = stop_reached_at {
+            if sp == ph.index {
+                for r in &ph.runs {
+                    if r.start > st {
+                        let already = f.iter().any(|x| x.0 == "started-after-budget-exhausted" && x.1.contains(&name(p, r.step)));
+                        if !already {
+                            f.push(("started-after-budget-exhausted".into(), format!("phase {}: {} started after the failure budget (-k {:?}) was used up or a command was interrupted", ph.index, name(p, r.step), s.k)));
+                        }
+                    }
+                }
+            }
+        }
+    }
+    let any_bad = failures_total > 0 || interrupted;
+    match &ex.result {
+        BuildResult::Success(_) if any_bad => f.push(("success-despite-failure".into(), format!("{} command(s) failed, interrupted: {}, yet the invocation reported success", failures_total, interrupted))),
+        BuildResult::Failed if !any_bad => f.push(("failure-without-failed-command".into(), "the invocation reported failure but no command failed".into())),
+        _ => {}
+    }
+    // Below the budget every wanted step not downstream of a failure must be
+    // up to date at the end.
+    let below_budget = !interrupted && s.k.map(|k| failures_total < k).unwrap_or(true);
+    if below_budget && matches!(ex.result, BuildResult::Failed | BuildResult::Success(_)) {
+        if let Some(ph) = phs.last() {
+            let p = ph.project;
+            let failed: BTreeSet<usize> = ph.runs.iter().filter(|r| matches!(r.finish, Some((_, t)) if t != Term::Success)).map(|r| r.step).collect();
+            // If the regeneration phase failed, nothing else is expected.
+            let regen_failed = phs.len() == 1 && phs[0].project.producer(&s.manifest_name).is_some() && !failed.is_empty();
+            if !regen_failed {
+                for &st in &ph.wanted {
+                    if p.steps[st].phony || failed.contains(&st) {
+                        continue;
+                    }
+                    if p.ord_pred(st).iter().any(|q| failed.contains(q)) {
+                        continue;
+                    }
+                    if let Some(pl) = &p.steps[st].pool {
+                        if p.pool_depth(pl).is_none() {
+                            continue;
+                        }
+                    }
+                    let d = ex.sim.model.is_dirty(p, st);
+                    if d.is_dirty() {
+                        f.push(("undamaged-step-left-out-of-date".into(), format!("{} is not downstream of any failure and the budget was not used up, but it was left out of date ({:?})", name(p, st), d)));
+                    }
+                }
+            }
+        }
+    }
+    // A failed or interrupted command is never recorded: the follow-up
+    // invocation must run it again.
+    if let Some((res, ran)) = &ex.followup {
+        if let Some(ph) = phs.last() {
+            let p = ph.project;
+            for r in &ph.runs {
+                if matches!(r.finish, Some((_, t)) if t != Term::Success) && ph.wanted.contains(&r.step) && !ran.contains(&r.step) {
+                    f.push(("failed-step-recorded-as-up-to-date".into(), format!("{} failed, but the next invocation ({:?}) did not run it again", name(p, r.step), res)));
+                }
+            }
+        }
+    }
+    f
+}
+
+pub fn monitor_c06(s: &Scenario, ex: &Execution) -> Findings {
+    let mut f = Findings::new();
+    match &ex.result {
+        BuildResult::Panicked(p) => f.push((p.key.clone(), format!("n2 panicked: {} at {}", p.message, p.location))),
+        BuildResult::Stopped(why) if !why.starts_with("machinery:") => f.push((why.clone(), format!("the invocation could not continue: {}", why))),
+        _ => {}
+    }
+    for p in &ex.thread_panics {
+        f.push((p.key(), format!("a task thread panicked: {} at {}", p.message, p.location)));
+    }
+    let phs = phases(s, ex);
+    let first = &ex.sim.projects[0];
+    // Cycle expectations are stated on the initial project and the wanted set
+    // of the phase that first sees the cycle.
+    let wanted0: BTreeSet<usize> = if first.producer(&s.manifest_name).is_some() {
+        first.closure(&[s.manifest_name.clone()])
+    } else {
+        let t: Vec<String> = s.targets.iter().map(|t| vcore::refbuild::canon(t)).collect();
+        first.wanted(&t, None)
+    };
+    let unknown_target = s.targets.iter().any(|t| {
+        let c = vcore::refbuild::canon(t);
+        first.producer(&c).is_none() && !first.sources().contains(&c)
+    });
+    let cyclic = first.ordering_cycle_from(&wanted0);
+    if cyclic && !unknown_target {
+        match &ex.result {
+            BuildResult::Error(msg) if msg.starts_with("dependency cycle: ") => {
+                let chain: Vec<&str> = msg["dependency cycle: ".len()..].split(" -> ").collect();
+                let mut ok = chain.len() >= 2 && chain.first() == chain.last();
+                for w in chain.windows(2) {
+                    // w[0]'s producer has w[1] as an ordering input
+                    match first.producer(w[0]) {
+                        Some(st) => {
+                            if !first.steps[st].ordering_ins().iter().any(|i| i.as_str() == w[1]) {
+                                ok = false;
+                            }
+                        }
+                        None => ok = false,
+                    }
+                }
+                if !ok {
+                    f.push(("cycle-message-not-a-cycle".into(), format!("{:?} does not name a cycle of ordering edges", msg)));
+                }
+                if phs.iter().any(|ph| !ph.runs.is_empty()) {
+                    f.push(("cycle-steps-run".into(), format!("commands were started although a dependency cycle was reported: {:?}", msg)));
+                }
+            }
+            other => f.push(("cycle-not-reported".into(), format!("the requested steps contain a dependency cycle but the result is {:?}", other))),
+        }
+        return f;
+    }
+    if let BuildResult::Error(msg) = &ex.result {
+        if msg.starts_with("dependency cycle") {
+            f.push(("false-cycle".into(), format!("no cycle of ordering edges among the requested steps, yet: {:?}", msg)));
+        }
+    }
+    // With no failing command every wanted step ends up to date.
+    let none_fail = s.outcomes.is_empty() && s.raw_depfile.is_empty();
+    if none_fail && !unknown_target {
+        let undeclared = first.steps.iter().chain(ex.sim.projects.last().unwrap().steps.iter()).any(|st| st.pool.as_ref().map(|pl| ex.sim.projects.last().unwrap().pool_depth(pl).is_none() && first.pool_depth(pl).is_none()).unwrap_or(false));
+        match &ex.result {
+            BuildResult::Success(_) => {
+                if let Some(ph) = phs.last() {
+                    for &st in &ph.wanted {
+                        if ph.project.steps[st].phony {
+                            continue;
+                        }
+                        let d = ex.sim.model.is_dirty(ph.project, st);
+                        if d.is_dirty() && !s.adopt {
+                            f.push(("wanted-step-left-out-of-date".into(), format!("the invocation succeeded but {} is out of date ({:?})", name(ph.project, st), d)));
+                        }
+                    }
+                }
+            }
+            BuildResult::Error(msg) if msg.contains("unknown pool") && undeclared => {}
+            BuildResult::Error(msg) if msg.contains("unknown path requested") => {
+                // target only known to the old / new manifest in R scenarios
+            }
+            BuildResult::Panicked(_) | BuildResult::Stopped(_) | BuildResult::Crashed => {}
+            other => f.push(("no-failure-yet-not-successful".into(), format!("no command fails in this scenario but the result is {:?}", other))),
+        }
+    }
+    f
+}
+
+pub fn monitor_c18(s: &Scenario, ex: &Execution) -> Findings {
+    let mut f = Findings::new();
+    let phs = phases(s, ex);
+    for ph in &phs {
+        for r in &ph.runs {
+            if !ph.wanted.contains(&r.step) {
+                f.push(("ran-step-outside-closure".into(), format!("phase {}: {} is not needed by the requested targets {:?} (defaults {:?}) but its command was started", ph.index, name(ph.project, r.step), s.targets, ph.project.defaults)));
+            }
+        }
+        for c in &ph.foreign_starts {
+            f.push(("ran-step-of-other-manifest".into(), format!("phase {}: command {:?} does not belong to the manifest in effect", ph.index, c)));
+        }
+    }
+    // Unknown names are judged against the manifest in effect for phase 2.
+    let has_gen = ex.sim.projects[0].producer(&s.manifest_name).is_some();
+    let final_project: &Project = match phs.last() {
+        Some(ph) if !(has_gen && phs.len() == 1) => ph.project,
+        _ => {
+            // Only the regeneration phase ran (it failed) or nothing ran.
+            if has_gen && phs.len() == 1 && phs[0].runs.iter().any(|r| matches!(r.finish, Some((_, Term::Success)))) {
+                ex.sim.projects.last().unwrap()
+            } else {
+                &ex.sim.projects[0]
+            }
+        }
+    };
+    let regen_failed = has_gen && phs.first().map(|p| p.runs.iter().any(|r| matches!(r.finish, Some((_, t)) if t != Term::Success))).unwrap_or(false);
+    if !regen_failed {
+        let mentioned = |t: &str| -> bool {
+            let c = vcore::refbuild::canon(t);
+            final_project.producer(&c).is_some() || final_project.sources().contains(&c) || c == s.manifest_name
+        };
+        let unknown: Vec<&String> = s.targets.iter().filter(|t| !mentioned(t)).collect();
+        if !unknown.is_empty() && !s.adopt {
+            match &ex.result {
+                BuildResult::Error(msg) if msg.contains("unknown path requested") => {
+                    let started_later = phs.iter().skip(if has_gen { 1 } else { 0 }).any(|ph| !ph.runs.is_empty());
+                    if started_later {
+                        f.push(("built-despite-unknown-target".into(), format!("target(s) {:?} occur nowhere in the manifest; n2 reported it but had already started commands", unknown)));
+                    }
+                }
+                BuildResult::Error(msg) if msg.starts_with("dependency cycle") => {}
+                other => f.push(("unknown-target-accepted".into(), format!("target(s) {:?} occur nowhere in the manifest in effect, but the result is {:?}", unknown, other))),
+            }
+        } else if let BuildResult::Error(msg) = &ex.result {
+            if msg.contains("unknown path requested") {
+                f.push(("known-target-rejected".into(), format!("every target of {:?} occurs in the manifest, yet: {}", s.targets, msg)));
+            }
+        }
+    }
+    // With no failures every dirty step of the closure runs: same clause as
+    // C06's, evaluated here for the requested closure only.
+    if s.outcomes.is_empty() {
+        if let (BuildResult::Success(_), Some(ph)) = (&ex.result, phs.last()) {
+            for &st in &ph.wanted {
+                if ph.project.steps[st].phony {
+                    continue;
+                }
+                if ex.sim.model.is_dirty(ph.project, st).is_dirty() && !s.adopt {
+                    f.push(("closure-step-left-out-of-date".into(), format!("{} is needed by the requested targets but was left out of date", name(ph.project, st))));
+                }
+            }
+        }
+    }
+    f
+}
+
+pub fn monitor_c19(s: &Scenario, ex: &Execution) -> Findings {
+    let mut f = Findings::new();
+    let phs = phases(s, ex);
+    let mut successes_total = 0usize;
+    for ph in &phs {
+        let p = ph.project;
+        let expected_total = ph.wanted.iter().filter(|&&st| !p.steps[st].phony).count();
+        let mut last_done = 0usize;
+        let mut last_failed = 0usize;
+        let mut fails = 0usize;
+        let mut succ = 0usize;
+        let mut started: Vec<usize> = Vec::new();
+        let mut finished: Vec<usize> = Vec::new();
+        let cyclic_or_error = matches!(ex.result, BuildResult::Error(_));
+        for (i, e) in ph.events.iter().enumerate() {
+            match e {
+                Event::Finished { term, .. } => match term {
+                    Term::Failure => fails += 1,
+                    Term::Success => succ += 1,
+                    Term::Interrupted => {}
+                },
+                Event::TaskStarted { build } => started.push(*build),
+                Event::TaskFinished { build, .. } => {
+                    if !started.contains(build) || finished.contains(build) {
+                        f.push(("task-finished-without-start".into(), format!("phase {}: task_finished for build {} without a matching task_started", ph.index, build)));
+                    }
+                    finished.push(*build);
+                }
+                Event::Counts(c, n2_total) => {
+                    let total: usize = c.iter().sum();
+                    if *n2_total != total {
+                        f.push(("total-differs-from-sum-of-states".into(), format!("phase {} event {}: the display's total is {}, the per-state counts {:?} sum to {}", ph.index, i, n2_total, c, total)));
+                    }
+                    if total != expected_total && !cyclic_or_error {
+                        f.push(("total-differs-from-wanted-steps".into(), format!("phase {} event {}: counts {:?} sum to {}, the wanted set has {} non-phony steps", ph.index, i, c, total, expected_total)));
+                    }
+                    let running_now = ph.running_at(i).len();
+                    if c[3] != running_now {
+                        f.push(("running-count-wrong".into(), format!("phase {} event {}: reported running {}, actually running {}", ph.index, i, c[3], running_now)));
+                    }
+                    // Every failure n2 has processed and survived is shown.
+                    if c[5] != fails {
+                        f.push(("failed-count-wrong".into(), format!("phase {} event {}: reported failed {}, {} commands have failed", ph.index, i, c[5], fails)));
+                    }
+                    if c[4] < last_done {
+                        f.push(("done-count-decreased".into(), format!("phase {} event {}: done went from {} to {}", ph.index, i, last_done, c[4])));
+                    }
+                    if c[5] < last_failed {
+                        f.push(("failed-count-decreased".into(), format!("phase {} event {}: failed went from {} to {}", ph.index, i, last_failed, c[5])));
+                    }
+                    if c[4] < succ {
+                        f.push(("done-count-below-successes".into(), format!("phase {} event {}: done {} but {} commands have succeeded", ph.index, i, c[4], succ)));
+                    }
+                    last_done = c[4];
+                    last_failed = c[5];
+                }
+                _ => {}
+            }
+        }
+        successes_total += succ;
+    }
+    if let BuildResult::Success(n) = &ex.result {
+        if *n != successes_total {
+            f.push(("ran-count-wrong".into(), format!("the invocation reports {} tasks run; {} commands completed successfully", n, successes_total)));
+        }
+    }
+    f
+}
+
+/// C17 (scheduler half): after a regeneration, phase 2 belongs entirely to
+/// the new manifest; if regeneration fails nothing else runs.
+pub fn monitor_c17(s: &Scenario, ex: &Execution) -> Findings {
+    let mut f = Findings::new();
+    let phs = phases(s, ex);
+    let has_gen = ex.sim.projects[0].producer(&s.manifest_name).is_some();
+    if !has_gen {
+        return f;
+    }
+    let Some(p1) = phs.first() else { return f };
+    let gen_step = p1.project.producer(&s.manifest_name).unwrap();
+    let gen_failed = p1.runs.iter().any(|r| matches!(r.finish, Some((_, t)) if t != Term::Success));
+    if gen_failed {
+        if phs.len() > 1 && phs[1..].iter().any(|ph| !ph.runs.is_empty()) {
+            f.push(("ran-after-failed-regeneration".into(), "commands were started after the regeneration phase failed".into()));
+        }
+        if !matches!(ex.result, BuildResult::Failed) {
+            f.push(("failed-regeneration-not-reported".into(), format!("regeneration failed but the result is {:?}", ex.result)));
+        }
+        return f;
+    }
+    // Was the generator dirty at the beginning?  (Model on the prepared state.)
+    let gen_ran = p1.run_of(gen_step).is_some();
+    for r in &p1.runs {
+        if !p1.wanted.contains(&r.step) {
+            f.push(("regeneration-phase-ran-unrelated-step".into(), format!("{} is not needed for the manifest but ran in the regeneration phase", name(p1.project, r.step))));
+        }
+    }
+    if phs.len() > 1 {
+        let p2 = &phs[1];
+        for c in &p2.foreign_starts {
+            f.push(("old-manifest-step-after-reload".into(), format!("command {:?} is not part of the regenerated manifest but was started after the reload", c)));
+        }
+        if gen_ran && p2.run_of(p2.project.producer(&s.manifest_name).unwrap_or(usize::MAX)).is_some() {
+            f.push(("generator-ran-twice".into(), "the generator ran again after the reload".into()));
+        }
+    }
+    // Everything after a reload must look like a fresh invocation on the new
+    // text: final state of the wanted steps clean, closure respected (C18's
+    // monitor judges against the new project), no stale steps run.
+    f.extend(monitor_c18(s, ex).into_iter().map(|(k, d)| (format!("regen:{}", k), d)));
+    if s.outcomes.is_empty() {
+        f.extend(monitor_c06(s, ex).into_iter().filter(|(k, _)| k == "wanted-step-left-out-of-date").map(|(k, d)| (format!("regen:{}", k), d)));
+    }
+    f
+}
+
+pub fn monitors(prop: &str, s: &Scenario, ex: &Execution) -> Findings {
+    match prop {
+        "C01" => monitor_c01(s, ex),
+        "C04" => monitor_c04(s, ex),
+        "C05" => monitor_c05(s, ex),
+        "C06" => monitor_c06(s, ex),
+        "C17" => monitor_c17(s, ex),
+        "C18" => monitor_c18(s, ex),
+        "C19" => monitor_c19(s, ex),
+        _ => Vec::new(),
+    }
+}
+
+// ---------------------------------------------------------------------------
+// Explorer.
+
+fn trace_hash(ex: &Execution) -> u64 {
+    let mut h = Fnv::default();
+    for e in &ex.trace {
+        match e {
+            Event::Start { cmdline, .. } => {
+                h.str("S");
+                h.str(cmdline);
+            }
+            Event::Finished { build, term } => {
+                h.str("F");
+                h.u64(*build as u64);
+                h.u64(*term as u64);
+            }
+            Event::RunBegin { .. } => h.str("R"),
+            _ => {}
+        }
+    }
+    h.str(&format!("{:?}", ex.result));
+    h.0
+}
+
+fn outcome_class(ex: &Execution) -> String {
+    let starts = ex.trace.iter().filter(|e| matches!(e, Event::Start { .. })).count();
+    let r = match &ex.result {
+        BuildResult::Success(_) => "success".to_string(),
+        BuildResult::Failed => "failed".to_string(),
+        BuildResult::Error(m) => format!("error:{}", crate::eng_total::class_of(m)),
+        BuildResult::Crashed => "crashed".to_string(),
+        BuildResult::Stopped(w) => format!("stopped:{}", w),
+        BuildResult::Panicked(p) => p.key.clone(),
+    };
+    format!("{} starts={}", r, starts.min(6))
+}
+
+pub fn explore(ctx: &Ctx, fam: &str, idx: usize, s: &Scenario, res: &mut ShardResult, only_prefix: Option<Vec<usize>>) {
+    let prop = ctx.prop.clone();
+    let job = ctx.job.clone();
+    let prep = match prepare(s) {
+        Ok(p) => p,
+        Err(e) => {
+            // The prebuild is an ordinary all-success build; its failure is a
+            // finding for C06 and a skipped scenario otherwise.
+            res.count("prebuild_failed", 1);
+            if prop == "C06" {
+                res.violation("prebuild-failed", || format!("{}: {}", s.note, e), || json!({"job": job, "family": fam, "index": idx, "choices": [], "scenario": s.describe()}));
+            }
+            return;
+        }
+    };
+    let mut stack: Vec<Vec<usize>> = vec![only_prefix.clone().unwrap_or_default()];
+    let mut seen_traces: BTreeSet<u64> = BTreeSet::new();
+    let mut executions = 0u64;
+    while let Some(prefix) = stack.pop() {
+        let mut mark = format!("{}#{} ", fam, idx).into_bytes();
+        mark.extend(prefix.iter().map(|c| b'0' + (*c as u8).min(9)));
+        ctx.marker.set(idx as u64, &mark);
+        let ex = execute(s, &prep, &prefix, true);
+        executions += 1;
+        res.evaluations += 1;
+        res.states += ex.points.len() as u64 + 1;
+        res.transitions += ex.points.len() as u64;
+        res.max_depth = res.max_depth.max(ex.points.len() as u64);
+        if let Some(d) = &ex.diverged {
+            res.violation("machinery:replay-divergence", || format!("{}: {}", s.note, d), || json!({"job": job, "family": fam, "index": idx, "choices": prefix}));
+            res.count("machinery_divergence", 1);
+            continue;
+        }
+        if let BuildResult::Stopped(w) = &ex.result {
+            if w.starts_with("machinery:") {
+                res.count("machinery_stop", 1);
+                res.violation(&w.clone(), || format!("{}: harness could not drive the execution: {}", s.note, w), || json!({"job": job, "family": fam, "index": idx, "choices": prefix}));
+                continue;
+            }
+        }
+        // Vacuity guards.
+        let max_running = ex.trace.iter().filter_map(|e| if let Event::Wait { running, .. } = e { Some(running.len()) } else { None }).max().unwrap_or(0);
+        if max_running >= 2 {
+            res.count("executions_with_concurrency", 1);
+        }
+        if ex.points.iter().any(|p| p.arity >= 2) {
+            res.count("executions_with_choice", 1);
+        }
+        if ex.sim.ran.iter().any(|r| r.term != Term::Success) {
+            res.count("executions_with_failure", 1);
+        }
+        if ex.trace.iter().filter(|e| matches!(e, Event::RunBegin { .. })).count() >= 2 && ex.sim.projects.len() >= 2 {
+            res.count("executions_with_reload", 1);
+        }
+        let h = trace_hash(&ex);
+        if seen_traces.insert(h) && ex.trace.iter().filter(|e| matches!(e, Event::Start { .. })).count() >= 2 {
+            res.nontrivial += 1;
+        }
+        res.outcome(&outcome_class(&ex));
+        let chosen: Vec<usize> = ex.points.iter().map(|p| p.chosen).collect();
+        for (key, detail) in monitors(&prop, s, &ex) {
+            res.violation(
+                &key,
+                || format!("{}\nscenario: {}\nchoices: {:?}\ntrace: {}", detail, s.note, chosen, short_trace(&ex)),
+                || json!({"job": job, "family": fam, "index": idx, "choices": chosen, "scenario": s.describe()}),
+            );
+        }
+        if idx % 997 == 0 && executions == 1 {
+            res.sample(|| json!({"family": fam, "index": idx, "scenario": s.describe(), "choices": chosen, "trace": short_trace(&ex)}));
+        }
+        if only_prefix.is_some() {
+            break;
+        }
+        // Branch on every later choice point.
+        for i in prefix.len()..ex.points.len() {
+            for alt in 1..ex.points[i].arity {
+                let mut p: Vec<usize> = ex.points[..i].iter().map(|x| x.chosen).collect();
+                p.push(alt);
+                stack.push(p);
+            }
+        }
+        if executions > 20_000 {
+            res.caps.push(format!("{}#{}: more than 20000 executions, exploration of this scenario cut", fam, idx));
+            break;
+        }
+    }
+}
+
+pub fn short_trace(ex: &Execution) -> String {
+    let mut out = Vec::new();
+    for e in &ex.trace {
+        match e {
+            Event::RunBegin { .. } => out.push("|run".to_string()),
+            Event::Start { cmdline, .. } => out.push(format!("start({})", cmdline)),
+            Event::Finished { build, term } => {
+                let c = ex.trace.iter().find_map(|x| match x {
+                    Event::Start { build: b, cmdline } if b == build => Some(cmdline.clone()),
+                    _ => None,
+                });
+                out.push(format!("end({},{:?})", c.unwrap_or_default(), term))
+            }
+            Event::Wait { running, .. } => out.push(format!("wait{}", running.len())),
+            _ => {}
+        }
+    }
+    format!("{} => {:?}", out.join(" "), ex.result)
+}
+
+pub fn run(ctx: &mut Ctx) -> ShardResult {
+    let mut res = ShardResult::default();
+    exec::install_hooks();
+    if let Some(case) = ctx.replay.clone() {
+        let fam = case["family"].as_str().expect("family").to_string();
+        let idx = case["index"].as_u64().expect("index") as usize;
+        let choices: Vec<usize> = case["choices"].as_array().map(|a| a.iter().map(|x| x.as_u64().unwrap_or(0) as usize).collect()).unwrap_or_default();
+        let list = family(&fam);
+        explore(ctx, &fam, idx, &list[idx], &mut res, Some(choices));
+        return res;
+    }
+    let fam = ctx.job.split(':').nth(1).expect("family").to_string();
+    let list = family(&fam);
+    for (idx, s) in list.iter().enumerate() {
+        if idx as u64 % ctx.nshards != ctx.shard {
+            continue;
+        }
+        if ctx.skip(idx as u64) {
+            continue;
+        }
+        explore(ctx, &fam, idx, s, &mut res, None);
+    }
+    res.count("scenarios", list.iter().enumerate().filter(|(i, _)| *i as u64 % ctx.nshards == ctx.shard).count() as u64);
+    res
+}
+
+pub fn case_from_marker(job: &str, bytes: &[u8]) -> Value {
+    // "<family>#<index> <choice digits>"
+    let text = String::from_utf8_lossy(bytes).to_string();
+    let (head, digits) = text.split_once(' ').unwrap_or((&text, ""));
+    let (fam, idx) = head.split_once('#').unwrap_or((head, "0"));
+    let choices: Vec<usize> = digits.bytes().map(|b| (b - b'0') as usize).collect();
+    json!({"job": job, "family": fam, "index": idx.parse::<usize>().unwrap_or(0), "choices": choices})
+}
+
+#[allow(dead_code)]
+pub fn unused(_: &BTreeMap<String, String>) {}
